@@ -85,17 +85,292 @@ def mirror(chk, save, load):
                               'obligations': len(obs)})
 
 
+NATIVE = r"""
+#include "engine/engine_util_errmem.h"
+int mj_version(void) { return mjVERSION_HEADER; }
+static void vf_on_error(const char* msg) { snprintf(vf_error_msg, sizeof vf_error_msg, "%s", msg); vf_error_flag = 1; if (vf_armed) longjmp(vf_jmp, 1); abort(); }
+static void vf_on_warning(const char* msg) { (void)msg; }
+#define VF_TRY(stmt) do { vf_error_flag = 0; vf_armed = 1; if (!setjmp(vf_jmp)) { stmt; } vf_armed = 0; } while (0)
+static int size_idx(const char* which) { int idx = -1, k = 0;
+#define X(name) if (!strcmp(#name, which)) idx = k; k++;
+  MJMODEL_SIZES
+#undef X
+  return idx; }
+int vf_nsizes(void) { return getnsize(); }
+const char* vf_errmsg(void) { return vf_error_msg; }
+int vf_build(unsigned char* out, int cap) {
+  mju_user_error = vf_on_error; mju_user_warning = vf_on_warning;
+  mjModel* m = NULL; mjtSize s[84] = {0};
+  s[size_idx("nbody")] = 1; s[size_idx("ngeom")] = 2; s[size_idx("nsensor")] = 1; s[size_idx("ntex")] = 1; s[size_idx("ntexdata")] = 16;
+  s[size_idx("ntuple")] = 1; s[size_idx("ntupledata")] = 1; s[size_idx("nnames")] = 2; s[size_idx("nkey")] = 1; s[size_idx("nuser_geom")] = 2;
+  mj_makeModel(&m,
+   s[0],s[1],s[2],s[3],s[4],s[5],s[6],s[7],s[8],s[9],s[10],s[11],s[12],s[13],s[14],s[15],s[16],s[17],s[18],s[19],s[20],
+   s[21],s[22],s[23],s[24],s[25],s[26],s[27],s[28],s[29],s[30],s[31],s[32],s[33],s[34],s[35],s[36],s[37],s[38],s[39],s[40],
+   s[41],s[42],s[43],s[44],s[45],s[46],s[47],s[48],s[49],s[50],s[51],s[52],s[53],s[54],s[55],s[56],s[57],s[58],s[59],s[60],
+   s[61],s[62],s[63],s[64],s[65],s[66],s[67],s[68],s[69],s[70],s[71],s[72],s[73],s[74],s[75],s[76],s[77],s[78],s[79],s[80],
+   s[81],s[82],s[83]);
+  if (!m) return -1;
+  m->body_mocapid[0] = -1; m->body_plugin[0] = -1; m->body_jntadr[0] = -1; m->body_dofadr[0] = -1; m->body_geomadr[0] = 0; m->body_geomnum[0] = 2; m->body_bvhadr[0] = -1;
+  for (int i=0; i<2; i++) { m->geom_matid[i] = -1; m->geom_dataid[i] = -1; m->geom_condim[i] = 3; m->geom_contype[i] = 1; }
+  m->sensor_plugin[0] = -1; m->sensor_type[0] = mjSENS_CLOCK; m->sensor_objtype[0] = mjOBJ_UNKNOWN; m->sensor_reftype[0] = mjOBJ_UNKNOWN;
+  m->sensor_objid[0] = -1; m->sensor_refid[0] = -1; m->sensor_dim[0] = 1; m->nsensordata = 1;
+  m->tex_pathadr[0] = -1; m->tex_height[0] = 2; m->tex_width[0] = 2; m->tex_nchannel[0] = 4;
+  m->tuple_size[0] = 1; m->tuple_objtype[0] = mjOBJ_BODY;
+  m->flg_gravcomp = 1; m->flg_adhesion = 1; m->opt.timestep = 0.125;
+  for (int i=0; i<m->nnames_map; i++) m->names_map[i] = -1;
+  if (mj_validateReferences(m)) return -2;
+  mjtSize sz = mj_sizeModel(m);
+  if (sz > cap) return -3;
+  int ok = 0;
+  VF_TRY({ mj_saveModel(m, NULL, out, (int)sz); ok = 1; });
+  mj_deleteModel(m);
+  return ok ? (int)sz : -4;
+}
+// 1 loaded (and the loaded model validates), 0 rejected with NULL, -99 reached mju_error, -98 loaded but invalid references
+int vf_load(const unsigned char* buf, int n, double* timestep, int* flags) {
+  mju_user_error = vf_on_error; mju_user_warning = vf_on_warning;
+  mjModel* m = NULL;
+  VF_TRY({ m = mj_loadModelBuffer(buf, n); });
+  if (vf_error_flag) return -99;
+  if (!m) return 0;
+  int r = mj_validateReferences(m) ? -98 : 1;
+  *timestep = m->opt.timestep; *flags = m->flg_gravcomp + 2*m->flg_surfacevel + 4*m->flg_adhesion;
+  mj_deleteModel(m);
+  return r;
+}
+"""
+
+
+NATIVE_VALIDATE = r"""
+static mjModel* vf_m = NULL;
+static int size_idx2(const char* which) { int idx = -1, k = 0;
+#define X(name) if (!strcmp(#name, which)) idx = k; k++;
+  MJMODEL_SIZES
+#undef X
+  return idx; }
+// a model with one object of every kind: mj_makeModel zero-fills it, a handful of fields are set to make it valid
+int vf_make(void) {
+  mjtSize s[84];
+  for (int i=0; i<84; i++) s[i] = 1;
+  s[size_idx2("nq")] = 1; s[size_idx2("nv")] = 1;
+  vf_m = NULL;
+  mj_makeModel(&vf_m,
+   s[0],s[1],s[2],s[3],s[4],s[5],s[6],s[7],s[8],s[9],s[10],s[11],s[12],s[13],s[14],s[15],s[16],s[17],s[18],s[19],s[20],
+   s[21],s[22],s[23],s[24],s[25],s[26],s[27],s[28],s[29],s[30],s[31],s[32],s[33],s[34],s[35],s[36],s[37],s[38],s[39],s[40],
+   s[41],s[42],s[43],s[44],s[45],s[46],s[47],s[48],s[49],s[50],s[51],s[52],s[53],s[54],s[55],s[56],s[57],s[58],s[59],s[60],
+   s[61],s[62],s[63],s[64],s[65],s[66],s[67],s[68],s[69],s[70],s[71],s[72],s[73],s[74],s[75],s[76],s[77],s[78],s[79],s[80],
+   s[81],s[82],s[83]);
+  if (!vf_m) return 0;
+  mjModel* m = vf_m;
+  mju_user_error = vf_on_error; mju_user_warning = vf_on_warning;
+  m->eq_type[0] = mjEQ_CONNECT;
+  m->dof_parentid[0] = -1; m->jnt_type[0] = mjJNT_SLIDE; m->eq_objtype[0] = mjOBJ_BODY; m->nsensordata = 1; m->npluginstate = 1;
+  m->geom_condim[0] = 3; m->sensor_type[0] = mjSENS_TOUCH; m->tuple_size[0] = 1; m->tuple_objtype[0] = mjOBJ_BODY;
+  m->actuator_trntype[0] = mjTRN_SLIDERCRANK; m->wrap_type[0] = mjWRAP_SITE;
+  m->hfield_nrow[0] = 1; m->hfield_ncol[0] = 1; m->tex_height[0] = 1; m->tex_width[0] = 1; m->tex_nchannel[0] = 1;
+  return 1;
+}
+int vf_validate(void) { int r = -1; VF_TRY({ r = (mj_validateReferences(vf_m) == NULL); }); return vf_error_flag ? -1 : r; }
+const char* vf_why(void) { const char* e = mj_validateReferences(vf_m); return e ? e : ""; }
+long long vf_size(const char* which) {
+#define X(name) if (!strcmp(#name, which)) return (long long) vf_m->name;
+  MJMODEL_SIZES
+#undef X
+  return -12345; }
+void* vf_array(const char* which) {
+  const mjModel* m = vf_m;
+#define X(type, name, nr, nc) if (!strcmp(#name, which)) return (void*) vf_m->name;
+  MJMODEL_POINTERS
+#undef X
+  return NULL; }
+"""
+
+
+class _Arr:
+    """concrete array for evaluating specification clauses: out-of-range reads are 0 (clauses guard their indices)."""
+
+    def __init__(self, vals):
+        self.v = list(vals)
+
+    def __getitem__(self, i):
+        return self.v[i] if isinstance(i, int) and 0 <= i < len(self.v) else 0
+
+
+def validator_sweep():
+    """the real compiled mj_validateReferences on a model with one object of every kind, each int array entry set to
+    boundary values in turn; whenever the validator accepts, every clause of its contract (the same expressions the
+    proof uses, evaluated concretely) must hold on that model.  Bounded."""
+    import ctypes
+    from vlib import native
+    from vlib.cexpr import concrete_eval, NS
+    from vlib.cast import load_tu
+    lib, d = native.build_so('c31v', ['src/engine/engine_io.c', 'src/engine/engine_util_errmem.c', 'src/engine/engine_init.c', 'src/engine/engine_util_blas.c'],
+                             NATIVE.split('int vf_nsizes')[0] + NATIVE_VALIDATE, define_err=False)
+    try:
+        lib.vf_array.restype = ctypes.c_void_p
+        lib.vf_size.restype = ctypes.c_longlong
+        lib.vf_why.restype = ctypes.c_char_p
+        if not lib.vf_make():
+            return {'reproduced': False, 'error': 'harness model could not be made'}
+        if lib.vf_validate() != 1:
+            return {'reproduced': False, 'error': 'harness model is rejected: %s' % lib.vf_why().decode()}
+        P = modeltab.model_pointers()
+        sizes = {nm: lib.vf_size(nm.encode()) for nm in modeltab.model_sizes()}
+        enums = dict(load_tu(F).enum_consts)
+        macros = modeltab.int_macros()
+        ctype = {'int': ctypes.c_int, 'mjtSize': ctypes.c_longlong, 'mjtByte': ctypes.c_ubyte, 'mjtBool': ctypes.c_ubyte}
+
+        def length(name):
+            typ, nr, nc = P[name]
+            ns = dict(macros); ns.update(enums); ns.update(sizes)
+            return sizes[nr] * int(eval(re.sub(r'MJ_M\((\w+)\)', r'\1', nc), {'__builtins__': {}}, ns))
+
+        def snapshot():
+            f = dict(sizes)
+            for name, (typ, nr, nc) in P.items():
+                if typ in ctype:
+                    n = length(name)
+                    a = ctypes.cast(lib.vf_array(name.encode()), ctypes.POINTER(ctype[typ]))
+                    f[name] = _Arr(a[k] for k in range(n))
+            return NS(**f)
+        clauses = io.validate_ensures()
+
+        def forall(fn):
+            import inspect
+            k = len(inspect.signature(fn).parameters)
+            import itertools
+            return all(fn(*c) for c in itertools.product(range(-1, 4), repeat=k))
+        extra = dict(enums)
+        extra.update({k: v for k, v in macros.items()})
+        extra.update(forall=forall, result=0)
+        runs = 0
+        for name, (typ, nr, nc) in P.items():
+            if typ != 'int':
+                continue
+            n = length(name)
+            a = ctypes.cast(lib.vf_array(name.encode()), ctypes.POINTER(ctypes.c_int))
+            for idx in range(min(n, 2)):
+                old = a[idx]
+                for val in (-2, -1, 1, 2, 7, 2**31 - 1):
+                    if val == old:
+                        continue
+                    a[idx] = val
+                    runs += 1
+                    if lib.vf_validate() == 1:
+                        m = snapshot()
+                        for cname, src in clauses.items():
+                            try:
+                                ok = concrete_eval({}, src, {'cur': {'m': m}}, extra=extra)
+                            except Exception:   # noqa
+                                continue
+                            if not ok:
+                                a[idx] = old
+                                return {'reproduced': True, 'name': 'validator_accepts_out_of_bounds_reference',
+                                        'input': {'model': 'one object of every kind (zero-filled by mj_makeModel)', 'array': name, 'index': idx, 'value': val},
+                                        'observed': 'mj_validateReferences returns NULL (accepts)', 'violated_clause': cname, 'runs': runs}
+                    a[idx] = old
+        return {'reproduced': False, 'cases_run': runs}
+    finally:
+        native.cleanup(d)
+
+
+def native_contract_run(open_obligations=()):
+    r = native_save_load()
+    if r.get('reproduced'):
+        return r
+    r2 = validator_sweep()
+    if r2.get('reproduced'):
+        return r2
+    return {'reproduced': False, 'cases_run': r.get('cases_run', 0) + r2.get('cases_run', 0), 'notes': [x.get('error') for x in (r, r2) if x.get('error')]}
+
+
+def native_save_load():
+    """the real compiled save / load on one small model: every truncation length must be rejected with NULL (never the
+    fatal error path), the full file must load to a model with valid references and the same option / flags, and size
+    fields corrupted to boundary values must be rejected or load to a valid model.  Bounded."""
+    import ctypes
+    from vlib import native
+    lib, d = native.build_so('c31', ['src/engine/engine_io.c', 'src/engine/engine_util_errmem.c', 'src/engine/engine_init.c', 'src/engine/engine_util_blas.c'], NATIVE, define_err=False)
+    try:
+        cap = 1 << 16
+        lib.vf_errmsg.restype = ctypes.c_void_p
+        buf = (ctypes.c_ubyte * cap)()
+        sz = lib.vf_build(buf, cap)
+        if sz <= 0:
+            return {'reproduced': False, 'error': 'harness model could not be built (%d)' % sz}
+        data = bytes(buf[:sz])
+        ts, fl = ctypes.c_double(0), ctypes.c_int(0)
+
+        def load(b):
+            arr = (ctypes.c_ubyte * max(1, len(b))).from_buffer_copy(b if b else b'\0')
+            return lib.vf_load(arr, len(b), ctypes.byref(ts), ctypes.byref(fl))
+        r = load(data)
+        if r != 1 or ts.value != 0.125 or fl.value != 5:
+            return {'reproduced': True, 'name': 'round_trip', 'input': {'file': 'harness model, %d bytes' % sz},
+                    'observed': {'load': r, 'timestep': ts.value, 'flags(gravcomp,surfacevel,adhesion)': fl.value}, 'expected': {'load': 1, 'timestep': 0.125, 'flags': 5},
+                    'violated_clause': 'load(save(m)) reproduces the options and flags'}
+        for n in range(sz):
+            r = load(data[:n])
+            if r != 0:
+                return {'reproduced': True, 'name': 'truncated_file_rejected', 'input': {'truncate_to_bytes': n, 'of': sz},
+                        'observed': {'load': r, 'meaning': {-99: 'fatal mju_error reached', 1: 'loaded', -98: 'loaded with invalid references'}.get(r)},
+                        'violated_clause': 'a truncated file is rejected with a warning and NULL'}
+        import struct
+        ns = lib.vf_nsizes()
+        for j in range(ns):
+            old = struct.unpack_from('<q', data, 20 + 8 * j)[0]
+            for v in (-1, old + 1, old - 1, 2**31 - 1, 2**31, 2**40, -2**63):
+                if v == old:
+                    continue
+                b = bytearray(data)
+                struct.pack_into('<q', b, 20 + 8 * j, v)
+                r = load(bytes(b))
+                if r == -99 and b'ould not allocate' in ctypes.string_at(lib.vf_errmsg()):
+                    continue        # out of memory for an enormous but consistent size: the allocation-failure path (property C21), not C31
+                if r not in (0, 1):
+                    return {'reproduced': True, 'name': 'corrupt_size_field', 'input': {'size_field_index': j, 'value': v},
+                            'observed': {'load': r}, 'violated_clause': 'a corrupt size is rejected or yields a valid model'}
+        return {'reproduced': False, 'cases_run': sz + 7 * ns + 1}
+    finally:
+        native.cleanup(d)
+
+
+def coverage_of_validator(sub, res):
+    """structural obligations, one per documented reference array outside the proved table: the validator constrains it."""
+    from vlib.flow import _consts_of
+    acc = [st for st in res.ret_states if not (isinstance(st.ghost.get('$ret'), Ptr) and st.ghost['$ret'].obj is not None)]
+    names = set()
+    for st in acc:
+        names |= _consts_of(st.pc)
+    for arr, cnt, tgt in io.UNCHECKED_REFS:
+        ok = ('m.' + arr) in names
+        sub.external('mj_validateReferences/covers/' + arr, ok, 'structural (symbol occurrence in the accepting path condition)',
+                     detail='' if ok else 'no check of m.%s (entries index an array of %s elements): any value is accepted' % (arr, tgt),
+                     model=None if ok else {'m.%s[0]' % arr: 1000000000, 'accepted': True})
+
+
 def main():
     chk = Check('C31')
+    chk.native_fallback = native_contract_run
     C = io.contracts()
     hooks = {'mj_makeModel': io.make_model_hook}
     # independent units run in child processes while the save / load executions (whose terms the mirror needs) run here
-    chk.unit_in_child(F, 'mj_validateReferences', C, 'math', 'fp')
+    chk.unit_in_child(F, 'mj_validateReferences', C, 'math', 'fp', post=coverage_of_validator)
     chk.unit_in_child(F, 'mj_sizeModel', C, 'math', 'fp')
     save = chk.unit(F, 'mj_saveModel', C, 'math', 'fp', hooks=hooks)
     load = chk.unit(F, 'mj_loadModelBuffer', C, 'math', 'fp', hooks=hooks)
     if save is not None and load is not None:
         mirror(chk, save, load)
+    import time
+    from vlib.report import run_isolated
+    t0 = time.time()
+    r = run_isolated(lambda n, m, o: native_contract_run([]), '', None, None, timeout=600, crash_is_failure=True)
+    chk.bounded.append({'what': 'real compiled mj_saveModel / mj_loadModelBuffer on one small model',
+                        'bound': 'every truncation length of one ~4 kB file; every size field set to 7 boundary values; one round trip',
+                        'result': r, 'wall_s': round(time.time() - t0, 1), 'counted_as_proved': False})
+    if r and r.get('reproduced'):
+        chk.native_fallback = None
+        chk.external('bounded/native_contract_run', False, 'native-exhaustive(bounded)', time.time() - t0, detail=str(r)[:300], model=r)
     chk.assumptions |= {
         'model invariant: every pointer field of mjModel is an array of the length include/mujoco/mjxmacro.h gives it (re-read every run); sizes are non-negative and below INT_MAX (checked by mj_makeModel)',
         'plugin sensors: mjp_getPluginAtSlot returns a valid plugin and its nsensordata callback has no effect on the model (assumed)',
